@@ -199,9 +199,10 @@ def gen_idx(rng, big=False):
         elif r < 0.52:
             ops.append(f"L:{ci}")
         elif r < 0.67:
-            off = rng.choice([0, 0, 1, 2, 5, 12, 13, U64, U64 - 1, 1 << 63])
-            ln = rng.choice([0, 1, 2, 3, 5, 12, 34, U64, 1 << 63])
-            mxb = rng.choice([0, 1, 2, 5, 64, U64])
+            big = rng.random() < 0.25      # u64-boundary arguments (20-digit numbers are slow to print in Coq)
+            off = rng.choice([0, 0, 1, 2, 5, 12, 13] + ([U64, U64 - 1, 1 << 63] if big else []))
+            ln = rng.choice([0, 1, 2, 3, 5, 12, 34] + ([U64, 1 << 63] if big else []))
+            mxb = rng.choice([0, 1, 2, 5, 64] + ([U64] if big else []))
             ops.append(f"G:{ci}:{off}:{ln}:{mxb}")
         elif r < 0.73:
             ops.append("B:" + href(rng, n))
@@ -254,11 +255,25 @@ def universe(c, hs):
     return sorted(u)
 
 
-def N(n):
-    return vf.coq_hexN("%x" % n)
+class Ranks:
+    """Monotone injection of the 256-bit values occurring in a case into 1..k.  The model only ever compares hashes
+    (N.compare / N.eqb), so running it on ranks instead of the real values is the same run up to this renaming; it
+    avoids parsing/printing 77-digit numbers in Coq (~1 s each)."""
+    def __init__(self, values):
+        self.vals = sorted(set(values))
+        self.rk = {v: i + 1 for i, v in enumerate(self.vals)}
+    def N(self, v):
+        return str(self.rk[v])
+    def hex(self, r):
+        return vf.hex32(self.vals[r - 1])
 
 
-def op_term(tok, c, hs):
+def case_ranks(c, hs):
+    return Ranks(universe(c, hs)), Ranks([int(s.split("/")[4], 16) for s in c["coords"]])
+
+
+def op_term(tok, c, hs, R):
+    N = R.N
     f = tok.split(":")
     k = f[0]
     if k == "p":
@@ -277,13 +292,14 @@ def op_term(tok, c, hs):
     raise ValueError(tok)
 
 
-def coord_term(s):
+def coord_term(s, RC):
     f = s.split("/")
     return (f"({vf.coq_bytes(unhx(f[0]))},({vf.coq_bytes(unhx(f[1]))},({vf.coq_bytes(unhx(f[2]))},"
-            f"({int(f[3])},{N(int(f[4], 16))}))))")
+            f"({int(f[3])},{RC.N(int(f[4], 16))}))))")
 
 
-def iop_term(tok, c, hs):
+def iop_term(tok, c, hs, R):
+    N = R.N
     f = tok.split(":")
     k = f[0]
     if k == "R":
@@ -298,10 +314,12 @@ def iop_term(tok, c, hs):
         return f"IDescriptor c{int(f[1])}"
     if k == "F":
         return "IFreshStore"
-    return f"IStore ({op_term(tok, c, hs)})"
+    return f"IStore ({op_term(tok, c, hs, R)})"
 
 
 def to_term(c, hs):
+    R, RC = case_ranks(c, hs)
+    N = R.N
     tbl = ";".join(f"({vf.coq_bytes(b)},{N(h)})" for b, h in zip(c["pool"], hs))
     uni = ";".join(N(h) for h in universe(c, hs))
     head = f"let tbl : list (bytes * N) := [{tbl}] in let H := table_hash tbl in let uni : list N := [{uni}] in "
@@ -309,17 +327,24 @@ def to_term(c, hs):
     memdump = ("(map (fun h => (mem_get s h, mem_is_pinned s h)) uni, mem_len s, m_bytes s, "
                "mem_pinned_count s, mem_over_budget s)")
     if c["kind"] == "mem":
-        ops = ";".join(op_term(o, c, hs) for o in c["ops"])
+        ops = ";".join(op_term(o, c, hs, R) for o in c["ops"])
         return (head + f"let r := mem_run H (mem_new {mx}) [{ops}] in let s := fst r in (snd r, {memdump})")
     if c["kind"] == "disk":
-        ops = ";".join(op_term(o, c, hs) for o in c["ops"])
+        ops = ";".join(op_term(o, c, hs, R) for o in c["ops"])
         return (head + f"let r := disk_run H (disk_open []) [{ops}] in let d := fst r in "
                 "(snd r, (map (fun h => (disk_get H d h, disk_is_pinned d h)) uni, disk_pinned_count d, d_files d))")
-    cs = "".join(f"let c{i} : coord := {coord_term(s)} in " for i, s in enumerate(c["coords"]))
-    ops = ";".join(iop_term(o, c, hs) for o in c["ops"])
+    cs = "".join(f"let c{i} : coord := {coord_term(s, RC)} in " for i, s in enumerate(c["coords"]))
+    ops = ";".join(iop_term(o, c, hs, R) for o in c["ops"])
     descs = ";".join(f"descriptor ix c{i}" for i in range(len(c["coords"])))
     return (head + cs + f"let r := irun H ([], mem_new {mx}) [{ops}] in let ix := fst (fst r) in let s := snd (fst r) in "
             f"(snd r, {memdump}, [{descs}])")
+
+
+_CUR = [None]
+
+
+def HX(r):
+    return _CUR[0].hex(r)
 
 
 def opt_bytes(v):
@@ -335,15 +360,15 @@ def out_tok(o):
         return "-"
     tag, a = o[1], o[2]
     if tag == "OHash":
-        return "H" + vf.hex32(a[0])
+        return "H" + HX(a[0])
     if tag == "OMismatch":
-        return "mm:" + vf.hex32(a[1])
+        return "mm:" + HX(a[1])
     if tag == "OBytes":
         return opt_bytes(a[0])
     if tag == "OBool":
         return "1" if a[0] == "true" else "0"
     if tag == "OList":
-        return "L" + "+".join(vf.hex32(h) for h in a[0])
+        return "L" + "+".join(HX(h) for h in a[0])
     raise ValueError(o)
 
 
@@ -352,13 +377,13 @@ def err_tok(e):
         return "E:coord"
     tag, a = e[1], e[2]
     if tag == "MissingBlob":
-        return "E:blob:" + vf.hex32(a[0])
+        return "E:blob:" + HX(a[0])
     if tag == "RangeExceedsBudget":
         return f"E:budget:{a[0]}:{a[1]}"
     if tag == "RangeOutOfBounds":
         return f"E:oob:{a[0]}:{a[1]}:{a[2]}"
     if tag == "SemanticCoordinateConflict":
-        return f"E:conflict:{vf.hex32(a[0])}:{vf.hex32(a[1])}"
+        return f"E:conflict:{HX(a[0])}:{HX(a[1])}"
     raise ValueError(e)
 
 
@@ -367,16 +392,16 @@ def iout_tok(o):
     if tag == "IOStore":
         return out_tok(a)
     if tag == "IOOptDesc":
-        return "n" if a == "None" else f"d{vf.hex32(a[2][0][0])}/{a[2][0][1]}"
+        return "n" if a == "None" else f"d{HX(a[2][0][0])}/{a[2][0][1]}"
     if a[1] == "RErr":
         return err_tok(a[2][0])
     v = a[2][0]
     if tag == "IODesc":
-        return f"d{vf.hex32(v[0])}/{v[1]}"
+        return f"d{HX(v[0])}/{v[1]}"
     if tag == "IOLoad":
-        return f"d{vf.hex32(v[0])}/{v[1]}/{vf.hexb(v[2])}"
+        return f"d{HX(v[0])}/{v[1]}/{vf.hexb(v[2])}"
     if tag == "IORange":
-        return f"d{vf.hex32(v[0])}/{v[1]}/{v[2]}/{vf.hexb(v[3])}"
+        return f"d{HX(v[0])}/{v[1]}/{v[2]}/{vf.hexb(v[3])}"
     if tag == "IOBytes":
         return "b" + vf.hexb(v)
     raise ValueError(o)
@@ -390,6 +415,7 @@ def mem_dump_str(c, hs, d):
 
 
 def render_model(c, hs, v):
+    _CUR[0] = case_ranks(c, hs)[0]
     if c["kind"] == "mem":
         outs, d = v[0], v[1:]
         return f"res={','.join(out_tok(o) for o in outs) or '-'} {mem_dump_str(c, hs, d)}"
@@ -397,10 +423,10 @@ def render_model(c, hs, v):
         outs, probes, pc, files = v
         uni = universe(c, hs)
         ds = ";".join(f"{vf.hex32(h)}:{out_tok(g)}:{1 if p == 'true' else 0}" for h, (g, p) in zip(uni, probes)) or "-"
-        fl = ";".join(f"{vf.hex32(h)}:{vf.hexb(b)}" for h, b in files) or "-"
+        fl = ";".join(f"{HX(h)}:{vf.hexb(b)}" for h, b in files) or "-"
         return f"res={','.join(out_tok(o) for o in outs) or '-'} dump={ds} pins={pc} files={fl}"
     outs, d, descs = v[0], v[1:6], v[6]
-    ix = ";".join("n" if x == "None" else f"d{vf.hex32(x[2][0][0])}/{x[2][0][1]}" for x in descs) or "-"
+    ix = ";".join("n" if x == "None" else f"d{HX(x[2][0][0])}/{x[2][0][1]}" for x in descs) or "-"
     return f"res={','.join(iout_tok(o) for o in outs) or '-'} {mem_dump_str(c, hs, d)} idx={ix}"
 
 
